@@ -212,9 +212,10 @@ def git_id(path):
 
 
 def write_replay(mod, seed, run, info, original, minimal, min_stats):
-    os.makedirs(os.path.join(VERIF, 'replays'), exist_ok=True)
+    rdir = os.environ.get('VERIF_REPLAY_DIR') or os.path.join(VERIF, 'replays')
+    os.makedirs(rdir, exist_ok=True)
     res = execute(mod, choices=minimal)
-    path = os.path.join(VERIF, 'replays', f'{mod.ID}-{seed}-{run}.json')
+    path = os.path.join(rdir, f'{mod.ID}-{seed}-{run}.json')
     doc = {
         'property': mod.ID, 'verif_seed': seed, 'run': run,
         'violation': info,
@@ -345,8 +346,9 @@ def main(mod, argv=None):
         'wall_s': round(wall, 2),
         'violations': len(fresh),
     }
-    os.makedirs(os.path.join(VERIF, 'evidence'), exist_ok=True)
-    with open(os.path.join(VERIF, 'evidence', f'{mod.ID}.json'), 'w') as f:
+    edir = os.environ.get('VERIF_EVIDENCE_DIR') or os.path.join(VERIF, 'evidence')
+    os.makedirs(edir, exist_ok=True)
+    with open(os.path.join(edir, f'{mod.ID}.json'), 'w') as f:
         json.dump(jsonable(evidence), f, indent=1)
     print(f'[{mod.ID}] runs={agg["done"]}/{runs} nontrivial={agg["nontrivial"]} distinct={len(agg["shapes"])} '
           f'aborted={sum(agg["aborted"].values())} violations={len(fresh)} known={sum(known_hits.values())} wall={wall:.1f}s', flush=True)
